@@ -436,3 +436,55 @@ def random_cache_scenarios(kind, kt, vt, rng, n, runs, seed):
         sc["cache"]["cb"] = rng.choice(["cb1", "cb1", ""])
         out.append(sc)
     return out
+
+
+def pair_map_scenarios(kind, kt, vt, strat):
+    """Small scope, systematically: every ordered pair of writer calls on one key / on slot mates, plus a reader."""
+    out = []
+    v = Vals(5000)
+    ops = [("Store", ""), ("LoadOrStore", ""), ("LoadAndStore", ""), ("LoadOrCompute", ""), ("Compute", "toggle"), ("Compute", "setifabsent"),
+           ("LoadAndDelete", ""), ("Delete", ""), ("Clear", "")]
+    keys = {"k1": (FOCUS, 1), "k2": (FOCUS, 1)}
+
+    def mk(op, fn, k):
+        if op == "Clear":
+            return S("Clear")
+        if op in ("LoadAndDelete", "Delete"):
+            return S(op, k)
+        return S(op, k, v(), fn=fn)
+    for (o1, f1) in ops:
+        for (o2, f2) in ops:
+            for rel in ("same", "mate"):
+                for pre in ((), ("k1",)):
+                    k2 = "k1" if rel == "same" else "k2"
+                    sc = base("P-%s%s-%s%s-%s-%s/%s[%s]" % (o1, f1, o2, f2, rel, "present" if pre else "absent", kind, kt), kind, kt, vt, pin_of(keys),
+                              [S("Store", k, v()) for k in pre], [[mk(o1, f1, "k1")], [mk(o2, f2, k2)], [S("Load", "k1"), S("Load", k2)]], ["k1", "k2"], strat)
+                    out.append(sc)
+    return out
+
+
+def pair_cache_scenarios(kind, kt, vt, strat):
+    out = []
+    v = Vals(6000)
+    ops = [("Set", ""), ("GetOrSet", ""), ("GetAndSet", ""), ("GetAndRefresh", ""), ("GetOrCompute", ""), ("Compute", "toggle"), ("Compute", "setifabsent"),
+           ("GetAndDelete", ""), ("Delete", ""), ("DeleteExpired", ""), ("Clear", "")]
+    keys = {"k1": (FOCUS, 1), "k2": (FOCUS, 2)}
+
+    def mk(op, fn):
+        if op in ("Clear", "DeleteExpired"):
+            return S(op)
+        if op in ("GetAndDelete", "Delete"):
+            return S(op, "k1")
+        if op == "GetAndRefresh":
+            return S(op, "k1", d=100)
+        return S(op, "k1", v(), fn=fn, d=100)
+    states = {"live": [S("Set", "k1", v(), d=50), S("Set", "k2", v(), d=5), S("Tick", d=6)], "expired": [S("Set", "k1", v(), d=5), S("Set", "k2", v(), d=50), S("Tick", d=6)],
+              "absent": [S("Set", "k2", v(), d=5), S("Tick", d=6)]}
+    for (o1, f1) in ops:
+        for (o2, f2) in ops:
+            for stn, pre in states.items():
+                sc = base("PC-%s%s-%s%s-%s/%s[%s]" % (o1, f1, o2, f2, stn, kind, kt), kind, kt, vt, pin_of(keys), list(pre),
+                          [[mk(o1, f1)], [mk(o2, f2)], [S("Get", "k1"), S("Get", "k2")]], ["k1", "k2"], strat)
+                sc["cache"]["cb"] = "cb1"
+                out.append(sc)
+    return out
